@@ -56,6 +56,10 @@ def preimport():
         importlib.import_module(mod.name)
 
 
+ZIP_TEXT_A = b"secret text " * 40
+ZIP_TEXT_B = b"another message, longer than the first one; " * 55
+
+
 def material():
     if M:
         return M
@@ -79,8 +83,11 @@ def material():
     tok["hs512"] = rjws.make_compact(b'{"alg":"HS512"}', b"payload-512", "HS512", ref["oct1"])
     tok["jwt"] = rjws.make_compact(b'{"alg":"HS256","typ":"JWT"}', b'{"sub":"alice","n":1}', "HS256", ref["oct1"])
 
-    def jwe_tok(alg, keyname, enc="A128GCM", text=b"secret text", sender=None):
-        plan = {"ser": "compact", "enc": enc, "zip": None, "plaintext_hex": text.hex(), "aad_hex": None, "protected": {"alg": alg, "enc": enc}, "unprotected": None,
+    def jwe_tok(alg, keyname, enc="A128GCM", text=b"secret text", sender=None, zipv=None):
+        protected = {"alg": alg, "enc": enc}
+        if zipv:
+            protected["zip"] = zipv
+        plan = {"ser": "compact", "enc": enc, "zip": zipv, "plaintext_hex": text.hex(), "aad_hex": None, "protected": protected, "unprotected": None,
                 "recipients": [{"alg": alg, "key": gk.key_to_record(ref[keyname]), "header": None, "kid": None}],
                 "sender": gk.key_to_record(ref[sender]) if sender else None, "place": "protected"}
         return jweplan.ref_encrypt(plan, 7, ("canonical", 0))[0]
@@ -97,6 +104,9 @@ def material():
     tok["kw_b"] = jwe_tok("A128KW", "oct16", "A128GCM", b"another message, longer than the first one")
     tok["kw_cbc_b"] = jwe_tok("A128KW", "oct16", "A128CBC-HS256", b"another message, longer than the first one")
     tok["kw_c20p_b"] = jwe_tok("A128KW", "oct16", "C20P", b"another message, longer than the first one")
+    # compressed messages: whatever the library keeps per "zip" algorithm between calls is shared
+    tok["kw_zip"] = jwe_tok("A128KW", "oct16", "A128GCM", ZIP_TEXT_A, zipv="DEF")
+    tok["kw_zip_b"] = jwe_tok("A128KW", "oct16", "A128GCM", ZIP_TEXT_B, zipv="DEF")
     M["tok"] = tok
     return M
 
@@ -530,7 +540,23 @@ def op_sigkey_export(G):
     return sorted(d.items())
 
 
+def op_encrypt_kw_zip(G):
+    from joserfc import jwe
+    return _ref_decrypt(jwe.encrypt_compact({"alg": "A128KW", "enc": "A128GCM", "zip": "DEF"}, ZIP_TEXT_A, G.oct16), "oct16")[:2]
+
+
+def op_decrypt_kw_zip(G):
+    from joserfc import jwe
+    return jwe.decrypt_compact(material()["tok"]["kw_zip"], G.oct16).plaintext.decode()
+
+
+def op_decrypt_kw_zip_b(G):
+    from joserfc import jwe
+    return jwe.decrypt_compact(material()["tok"]["kw_zip_b"], G.oct16).plaintext.decode()
+
+
 OPS = {f.__name__[3:]: f for f in [
+    op_encrypt_kw_zip, op_decrypt_kw_zip, op_decrypt_kw_zip_b,
     op_encrypt_kw_foreign_header, op_decrypt_pbes2_default_registry, op_sigkey_first_use_sign, op_sigkey_encrypt_refused, op_sigkey_keyset, op_sigkey_export,
     op_read_kid, op_custom_registry_sign, op_sign_unregistered_header, op_custom_jwe_registry, op_encrypt_unregistered_header,
     op_sign_hs_k1, op_sign_hs_k2, op_verify_hs_k1, op_verify_hs_wrongkey, op_verify_hs_k2, op_sign_es, op_verify_es, op_verify_es_private_obj, op_sign_ed,
@@ -558,14 +584,16 @@ TOUCH = {"sigkey_first_use_sign": {"ec_sig"}, "sigkey_encrypt_refused": {"ec_sig
          "decrypt_kw_b": {"A128GCM", "A128KW"}, "decrypt_kw_cbc_b": {"A128CBC-HS256", "A128KW"}, "decrypt_kw_c20p_b": {"C20P", "A128KW"},
          "encrypt_gcmkw": {"A128GCMKW", "A128GCM"}, "decrypt_gcmkw": {"A128GCMKW", "A128GCM"},
          "encrypt_1pu_kw": {"ECDH-1PU+A128KW", "A128CBC-HS256"}, "decrypt_1pu_kw": {"ECDH-1PU+A128KW", "A128CBC-HS256"},
-         "decrypt_1pu_kw_b": {"ECDH-1PU+A128KW", "A128CBC-HS256"}}
+         "decrypt_1pu_kw_b": {"ECDH-1PU+A128KW", "A128CBC-HS256"},
+         "encrypt_kw_zip": {"DEF"}, "decrypt_kw_zip": {"DEF"}, "decrypt_kw_zip_b": {"DEF"}}
 CORE = ["sign_hs_k1", "sign_hs_k2", "verify_hs_k1", "verify_hs_wrongkey", "sign_es", "verify_es_private_obj", "keyset_new", "keyset_sign_pick",
         "keyset_verify_kid", "thumbprint", "ensure_kid", "export_public", "encrypt_kw", "decrypt_kw", "encrypt_ecdh", "jwt_roundtrip", "shared_keyset_sign",
         "verify_disallowed", "verify_ed_allowed", "read_kid", "custom_registry_sign", "sign_unregistered_header",
         "encrypt_kw_foreign_header", "sigkey_first_use_sign", "sigkey_encrypt_refused", "sigkey_keyset", "sigkey_export",
         "verify_hs256_list", "verify_hs512_under_hs256_list", "verify_hs512_list", "decrypt_pbes2_right", "decrypt_pbes2_wrong",
         "verify_hs_registry_and_list", "verify_es_registry", "encrypt_kw_cbc", "decrypt_kw_cbc", "decrypt_kw_b", "decrypt_kw_cbc_b",
-        "decrypt_kw_c20p", "decrypt_kw_c20p_b", "encrypt_gcmkw", "encrypt_1pu_kw", "decrypt_1pu_kw", "decrypt_1pu_kw_b"]
+        "decrypt_kw_c20p", "decrypt_kw_c20p_b", "encrypt_gcmkw", "encrypt_1pu_kw", "decrypt_1pu_kw", "decrypt_1pu_kw_b",
+        "encrypt_kw_zip", "decrypt_kw_zip", "decrypt_kw_zip_b"]
 
 
 def outcome(fn, G):
